@@ -47,6 +47,9 @@ pub struct Seed {
     /// variant of the same writer): takes part in every 0/1-deviation class, but its all-pairs class is
     /// bounded by fewer header-level sites
     pub tier2: bool,
+    /// number of trailing entries of `sites` located by a sub-structure map that was added later (MH2O
+    /// instances): the quick tier keeps them out of its strided 1-field class (they carry the byte classes)
+    pub extra_sites: usize,
 }
 
 pub const VALS: [&str; 10] = ["0", "1", "2^31-1", "2^31", "2^32-1", "field-1", "field+1", "file_len", "file_len-1", "file_len+1"];
@@ -116,6 +119,33 @@ pub enum Dev {
     Append(usize),
     /// three header fields deviate together (sites, value indices)
     Field3 { s: [usize; 3], v: [usize; 3] },
+    /// one byte of the dword at a site
+    Byte { site: usize, byte: usize, val: usize },
+    /// two bytes of the dword at a site
+    Byte2 { site: usize, b1: usize, v1: usize, b2: usize, v2: usize },
+}
+
+/// values of the byte-granular classes (b = the byte's own value)
+pub const BVALS: [&str; 10] = ["0", "1", "7", "8", "9", "255", "b+1", "b-1", "127", "128"];
+/// one byte of a packed 4 x u8 rectangle (offsets / extents on the 8x8 tile grid with its 9x9 vertices)
+pub const BV_RECT1: [usize; 8] = [0, 1, 2, 3, 4, 5, 6, 7];
+/// two bytes of such a rectangle together
+pub const BV_RECT2: [usize; 4] = [0, 3, 4, 5];
+/// one byte of a header-level dword {0x00, 0x01, 0x7F, 0x80, 0xFF, b+1}
+pub const BV_HDR: [usize; 6] = [0, 1, 8, 9, 5, 6];
+pub fn byte_value(vi: usize, orig: u8) -> u8 {
+    match vi {
+        0 => 0,
+        1 => 1,
+        2 => 7,
+        3 => 8,
+        4 => 9,
+        5 => 255,
+        6 => orig.wrapping_add(1),
+        7 => orig.wrapping_sub(1),
+        8 => 127,
+        _ => 128,
+    }
 }
 
 /// consistent payload resizes of a chunk
@@ -307,6 +337,32 @@ impl Seed {
                 }
                 Some(out)
             }
+            Dev::Byte { site, byte, val } => {
+                let st = &self.sites[*site];
+                let mut d = self.site_value(b, st).to_le_bytes();
+                let nv = byte_value(*val, d[*byte]);
+                if nv == d[*byte] {
+                    return None;
+                }
+                d[*byte] = nv;
+                let mut out = b.clone();
+                self.set_site(&mut out, st, u32::from_le_bytes(d));
+                Some(out)
+            }
+            Dev::Byte2 { site, b1, v1, b2, v2 } => {
+                let st = &self.sites[*site];
+                let mut d = self.site_value(b, st).to_le_bytes();
+                let (n1, n2) = (byte_value(*v1, d[*b1]), byte_value(*v2, d[*b2]));
+                if n1 == d[*b1] || n2 == d[*b2] {
+                    // a pair with an unchanged member is a single-byte case
+                    return None;
+                }
+                d[*b1] = n1;
+                d[*b2] = n2;
+                let mut out = b.clone();
+                self.set_site(&mut out, st, u32::from_le_bytes(d));
+                Some(out)
+            }
             Dev::Append(k) => {
                 let (fill, n) = APPENDS[*k];
                 let mut out = b.clone();
@@ -340,6 +396,8 @@ impl Seed {
             Dev::ChunkSwap2(x, y) => json!({"kind": "chunk_swap", "chunk": self.chunk_name(*x), "chunk2": self.chunk_name(*y)}),
             Dev::ChunkDel2(x, y) => json!({"kind": "chunk_delete2", "chunk": self.chunk_name(*x), "chunk2": self.chunk_name(*y)}),
             Dev::Field3 { s, v } => json!({"kind": "field3", "site": site(s[0]), "value": VALS_T[v[0]], "site2": site(s[1]), "value2": VALS_T[v[1]], "site3": site(s[2]), "value3": VALS_T[v[2]]}),
+            Dev::Byte { site: st, byte, val } => json!({"kind": "byte", "site": site(*st), "byte": byte, "value": BVALS[*val], "orig": self.site_value(&self.bytes, &self.sites[*st])}),
+            Dev::Byte2 { site: st, b1, v1, b2, v2 } => json!({"kind": "byte2", "site": site(*st), "byte": b1, "value": BVALS[*v1], "byte2": b2, "value2": BVALS[*v2], "orig": self.site_value(&self.bytes, &self.sites[*st])}),
             Dev::Append(k) => json!({"kind": "append", "fill": APPENDS[*k].0, "len": APPENDS[*k].1, "to": self.bytes.len()}),
         }
     }
@@ -408,6 +466,10 @@ pub struct SeedSpace {
     /// sites of the 3-deviation class (all triples x triple_vals^3); empty for most seeds
     pub triple_sites: Vec<usize>,
     pub triple_vals: Vec<usize>,
+    /// sites that hold a packed 4 x u8 rectangle: every byte x BV_RECT1 and every byte pair x BV_RECT2^2
+    pub rect_sites: Vec<usize>,
+    /// header-level sites whose single bytes take BV_HDR
+    pub byte_sites: Vec<usize>,
 }
 
 impl SeedSpace {
@@ -423,6 +485,15 @@ impl SeedSpace {
             + self.near_cases()
             + self.appends as u64
             + self.triple_cases()
+            + self.rect_cases()
+            + self.byte_cases()
+    }
+    pub const RECT_PER_SITE: u64 = (4 * BV_RECT1.len() + 6 * BV_RECT2.len() * BV_RECT2.len()) as u64;
+    pub fn rect_cases(&self) -> u64 {
+        self.rect_sites.len() as u64 * Self::RECT_PER_SITE
+    }
+    pub fn byte_cases(&self) -> u64 {
+        (self.byte_sites.len() * 4 * BV_HDR.len()) as u64
     }
     pub fn triples(&self) -> u64 {
         let n = self.triple_sites.len() as u64;
@@ -481,6 +552,26 @@ impl SeedSpace {
                 return Dev::Append(i as usize);
             }
             i -= self.appends as u64;
+            if i >= self.triple_cases() {
+                i -= self.triple_cases();
+                if i < self.rect_cases() {
+                    let site = self.rect_sites[(i / Self::RECT_PER_SITE) as usize];
+                    let j = (i % Self::RECT_PER_SITE) as usize;
+                    let singles = 4 * BV_RECT1.len();
+                    if j < singles {
+                        return Dev::Byte { site, byte: j / BV_RECT1.len(), val: BV_RECT1[j % BV_RECT1.len()] };
+                    }
+                    let j = j - singles;
+                    let nn = BV_RECT2.len() * BV_RECT2.len();
+                    const PAIRS: [(usize, usize); 6] = [(0, 1), (0, 2), (0, 3), (1, 2), (1, 3), (2, 3)];
+                    let (b1, b2) = PAIRS[j / nn];
+                    return Dev::Byte2 { site, b1, v1: BV_RECT2[j % nn / BV_RECT2.len()], b2, v2: BV_RECT2[j % BV_RECT2.len()] };
+                }
+                i -= self.rect_cases();
+                let per = (4 * BV_HDR.len()) as u64;
+                let j = (i % per) as usize;
+                return Dev::Byte { site: self.byte_sites[(i / per) as usize], byte: j / BV_HDR.len(), val: BV_HDR[j % BV_HDR.len()] };
+            }
             let k = self.triple_vals.len() as u64;
             let (mut t, vi) = (i / (k * k * k), i % (k * k * k));
             let n = self.triple_sites.len();
@@ -601,6 +692,7 @@ pub fn encode_seeds(v: &[Seed]) -> Vec<u8> {
         put_bytes(&mut o, &s.bytes);
         put_u64(&mut o, s.aux as u64);
         put_u64(&mut o, s.tier2 as u64);
+        put_u64(&mut o, s.extra_sites as u64);
         put_u64(&mut o, s.sites.len() as u64);
         for x in &s.sites {
             put_u64(&mut o, x.off as u64);
@@ -635,6 +727,7 @@ pub fn decode_seeds(b: &[u8]) -> Vec<Seed> {
     for _ in 0..n {
         let mut s = Seed { fmt: r.string(), name: r.string(), bytes: r.bytes(), aux: r.u64() as u32, ..Default::default() };
         s.tier2 = r.u64() != 0;
+        s.extra_sites = r.u64() as usize;
         for _ in 0..r.u64() {
             let off = r.u64() as usize;
             let name = r.string();
